@@ -1930,3 +1930,100 @@ def _c19i(fb, rep):
 
 
 RULES['C19'] = _c19i
+
+
+# ================================================================================================ eleventh batch (LU twins: seed C11-1)
+def _lu_zero_twins(fb):
+    """Pairs (CLUFactor<double>::f, CLUFactorRational::f) of uniquely named member functions with, for each, the multiset of subscripted lvalues that are
+    assigned the constant zero (`vec[r] = 0;`), parameter names replaced by their position (the twins name their parameters differently)."""
+    from collections import Counter
+
+    def zeros(f, positional):
+        pn = {}
+        if positional:      # pointer parameters numbered within their class (index arrays / value arrays): the rational twins drop the scalar eps parameters
+            cnt = {'i': 0, 'v': 0}
+            for name, ty in f.params:
+                if name and ty.rstrip().endswith('*'):
+                    cl = 'i' if re.match(r'(const )?int\b', ty) else 'v'
+                    cnt[cl] += 1
+                    pn[name] = '$%s%d' % (cl, cnt[cl])
+        c, where = Counter(), {}
+        for n in f.nodes:
+            if n.k not in ('BinaryOperator', 'CXXOperatorCallExpr') or n.o != '=' or f.in_assert(n):
+                continue
+            kids = n.kids if n.k == 'BinaryOperator' else n.args()
+            if len(kids) < 2:
+                continue
+            lhs, rhs = render(strip(kids[0])), render(strip(kids[1]))
+            if '[' not in lhs or not re.match(r'^\(?(Rational|R|double)?\(?0(\.0*)?\)?\)?$', rhs):
+                continue
+            lhs = re.sub(r'\b([A-Za-z_]\w*)\b', lambda m: pn.get(m.group(1), m.group(1)), lhs)
+            c[lhs] += 1
+            where.setdefault(lhs, n.l)
+        return c, where
+    real, rat = {}, {}
+    for f in fb.funcs.values():
+        if not f.nodes:
+            continue
+        if re.match(r'soplex::CLUFactor<double>::', f.name):
+            real.setdefault(f.short, []).append(f)
+        elif re.match(r'soplex::CLUFactorRational::', f.name):
+            rat.setdefault(f.short, []).append(f)
+    out = []
+    for s in sorted(set(real) & set(rat)):
+        if len(real[s]) != 1 or len(rat[s]) != 1:
+            continue
+        # the twins mostly use the same parameter names; where they do not (rhs / rhs2), compare by the position among the pointer parameters
+        a, b = zeros(real[s][0], False), zeros(rat[s][0], False)
+        if a[0] != b[0]:
+            a2, b2 = zeros(real[s][0], True), zeros(rat[s][0], True)
+            if sum(((a2[0] - b2[0]) + (b2[0] - a2[0])).values()) < sum(((a[0] - b[0]) + (b[0] - a[0])).values()):
+                a, b = a2, b2
+        if a[0] or b[0]:
+            out.append((s, real[s][0], rat[s][0], a, b))
+    return out
+
+
+def _lu_zero_rule(fb, rep, rid, side):
+    """side 0: the floating-point function must reset what its rational twin resets (C10); side 1: the rational one what the floating-point twin resets (C11)."""
+    who = ('CLUFactor<R>', 'CLUFactorRational')
+    rep.rule(rid, 'LU twins: %s resets (assigns zero to) every work-vector / table entry that the same function of %s resets' % (who[side], who[1 - side]), floor=20)
+    pairs = _lu_zero_twins(fb)
+    if len(pairs) < 20:
+        raise AnalysisBroken('%s: only %d twin functions of CLUFactor<R> / CLUFactorRational with zeroing assignments found' % (rid, len(pairs)))
+    for s, fr, fq, a, b in pairs:
+        mine, other = (a, b) if side == 0 else (b, a)
+        f = fr if side == 0 else fq
+        g = fq if side == 0 else fr
+        missing = other[0] - mine[0]
+        rep.check(not missing, rid, '%s|zeroing' % s, f.where(), '%d resets on both sides' % sum(mine[0].values()),
+                  '%s::%s does not reset %s, which %s::%s (%s:%d) sets to zero: the solve routines consume their right-hand side / work vector and the callers '
+                  '(assign() of a sparse vector, the next solve) rely on finding it all-zero - stale entries are added to the next right-hand side'
+                  % (who[side], s, ', '.join('%s (x%d)' % kv for kv in sorted(missing.items()))[:120], who[1 - side], s, g.file, other[1].get(sorted(missing)[0], g.line) if missing else 0))
+
+
+def c10e(fb, rep):
+    """R10.7: see _lu_zero_rule (side 0)."""
+    _lu_zero_rule(fb, rep, 'R10.7', 0)
+
+
+def c11e(fb, rep):
+    """R11.11: see _lu_zero_rule (side 1)."""
+    _lu_zero_rule(fb, rep, 'R11.11', 1)
+
+
+_c10p, _c11p = RULES['C10'], RULES['C11']
+
+
+def _c10q(fb, rep):
+    _c10p(fb, rep)
+    c10e(fb, rep)
+
+
+def _c11q(fb, rep):
+    _c11p(fb, rep)
+    c11e(fb, rep)
+
+
+RULES['C10'] = _c10q
+RULES['C11'] = _c11q
